@@ -3314,3 +3314,108 @@ def laziness_cases(prefix):
 for _p in ("C08", "C01", "C04", "C10", "C14", "C17"):
     _extend(_p, (lambda pref: (lambda seed, tier: laziness_cases(pref)))(_p.lower()),
             "plus laziness / order shapes: a failing operand on either side of every binary operator next to 0 / 1 / -1 operands, which of two errors wins, literal zeros next to failing operands, ite with failing conditions / unselected failing branches / leaf branches, drawing operands on both sides")
+
+
+def polling_cases(prefix):
+    """polling loops: a while whose condition reads a device output that the device changes after some calls (the condition is
+    evaluated AFTER the body's last row has been answered), whose body ends in a plain row / a clock row / a let; conditions
+    that meet Z or X (an error item on every poll, capped); two loops in a row with the same counter and lets in the first"""
+    cases = []
+    k = 0
+    def sig3():
+        return [{"name": "A", "typ": "I", "bits": 8, "default": "0"}, {"name": "RDY", "typ": "O", "bits": 1, "default": "-"}, {"name": "Q", "typ": "O", "bits": 8, "default": "-"},
+                {"name": "IO", "typ": "B", "bits": 4, "default": "Z"}]
+    progs = [
+        ["while(!RDY)", "1 X X X", "end while", "2 X X X"],
+        ["let t = 0;", "while(Q < 3)", "(t) X X X", "let t = t + 1;", "end while", "(t) X (Q) X"],
+        ["while(!RDY)", "C X X X", "end while", "3 X X X"],
+        ["while(RDY = 0)", "1 X X Z", "(Q) X X Z", "end while", "(Q) 1 X X"],
+        ["loop(i,2)", "while(!RDY)", "(i) X X X", "end while", "(i+10) X X X", "end loop"],
+        ["while(IO_out < 2)", "1 X X Z", "end while", "5 X X X"],
+        ["while(!RDY & (Q < 200))", "(Q) X X X", "end while"],
+    ]
+    seqs = [["0", "0", "0", "1", "1", "0", "1"], ["0", "1"], ["1"], ["0", "Z", "0", "1"], ["X", "X"], ["0", "0", "0", "0", "0", "0", "0", "0", "1"]]
+    for pr_ in progs:
+        for sq in seqs:
+            table = [[v, str(j) if v not in ("Z", "X") or j % 2 else v, str(j % 4)] for j, v in enumerate(sq)]
+            for cont in (0, 1):
+                cases.append({"id": "%s-poll-%d" % (prefix, k), "kind": "run", "src": "A RDY Q IO_out\n" + "\n".join(pr_) + "\n", "sigs": sig3(), "layout": [1, 2, 3], "table": table,
+                              "echo": 0, "wdefault": k % 2, "faults": [], "max": 24, "seed": 1 + k, "cont": cont})
+                k += 1
+    sg = [{"name": "A", "typ": "I", "bits": 8, "default": "0"}, {"name": "Q", "typ": "O", "bits": 8, "default": "-"}]
+    for pr_ in (["let t = 5;", "loop(i,2)", "let t = i + 10;", "let u = 1;", "(t) X", "end loop", "loop(i,2)", "(t+i) X", "end loop", "(t) X"],
+                ["loop(n,2)", "let v = n;", "(v) X", "end loop", "repeat(2) (n) X", "(0) X"],
+                ["loop(i,1)", "let a = 1;", "end loop", "loop(i,1)", "let b = 2;", "end loop", "loop(i,2)", "(i) X", "end loop"],
+                ["let w = 9;", "loop(i,2)", "let w = i;", "end loop", "loop(i,2)", "end loop", "loop(j,1)", "(w) X", "end loop", "(w) X"]):
+        for cont in (0, 1):
+            cases.append({"id": "%s-twoloops-%d" % (prefix, k), "kind": "run", "src": "A Q\n" + "\n".join(pr_) + "\n", "sigs": [dict(s_) for s_ in sg], "layout": [1], "table": [["1"]],
+                          "echo": 0, "wdefault": 0, "faults": [], "max": 24, "seed": 1 + k, "cont": cont})
+            k += 1
+    return cases
+
+
+for _p in ("C01", "C04", "C18", "C02", "C10"):
+    _extend(_p, (lambda pref: (lambda seed, tier: polling_cases(pref)))(_p.lower()),
+            "plus polling loops (a while condition that reads an output the device changes after some calls; Z / X in the sequence) and two loops in a row with the same counter")
+
+
+def declared_order_cases(prefix):
+    """several declared signals whose names are NOT in alphabetical order (declared at top level and inside blocks), one of
+    which fails on some answers (reads a Z), others that draw random numbers: they are evaluated and reported in
+    DECLARATION order, the ones behind a failing one are not evaluated, with a caller that continues and a resetRandom"""
+    cases = []
+    k = 0
+    sg = [{"name": "A", "typ": "I", "bits": 8, "default": "0"}, {"name": "Q", "typ": "O", "bits": 8, "default": "-"}, {"name": "P", "typ": "O", "bits": 8, "default": "-"}]
+    for decls in (["declare W = Q + 1;", "declare D = random(10);"], ["declare Z9 = random(5);", "declare A0 = Q + P;", "declare M = random(7) + A0*0;"],
+                  ["loop(i,1)", "declare W = P;", "end loop", "declare D = Q + random(3);", "declare B = random(4);"], ["declare V2 = Q;", "declare V1 = P;", "declare V0 = Q / P;"]):
+        names = [l.split()[1] for l in decls if l.startswith("declare")]
+        for in_hdr in (True, False):
+            hdr = "A Q P" + ("".join(" " + n_ for n_ in names) if in_hdr else "")
+            tail = " X" * len(names) if in_hdr else ""
+            rows = ["1 X X" + tail, "2 X X" + tail, "resetRandom;", "3 X X" + tail, "(random(9)) X X" + tail]
+            for table in ([["5", "2"]], [["5", "2"], ["Z", "2"], ["5", "0"], ["5", "Z"], ["X", "X"]]):
+                cases.append({"id": "%s-declorder-%d" % (prefix, k), "kind": "run", "src": "\n".join([hdr] + decls + rows) + "\n", "sigs": [dict(s_) for s_ in sg], "layout": [1, 2], "table": table,
+                              "echo": 0, "wdefault": k % 2, "faults": [], "max": 24, "seed": 1 + k, "cont": 1})
+                cases.append({"id": "%s-declorder-%d-b" % (prefix, k), "kind": "bind", "src": "\n".join([hdr] + decls + rows) + "\n", "sigs": [dict(s_) for s_ in sg], "layout": [], "table": [],
+                              "echo": 0, "wdefault": 0, "faults": [], "max": 24, "seed": 1 + k})
+                k += 1
+    return cases
+
+
+for _p in ("C14", "C17", "C06", "C15"):
+    _extend(_p, (lambda pref: (lambda seed, tier: declared_order_cases(pref)))(_p.lower()),
+            "plus several declared signals with names out of alphabetical order, one failing on some answers, others drawing random numbers (declaration order; nothing behind a failing one is evaluated)")
+
+
+def c11_clock_without_inputs_cases(seed, tier):
+    """a C entry in a column that is not input-capable when the header has NO input column at all (only outputs, declared
+    signals, <b>_out columns), and variations: refused at binding"""
+    cases = []
+    sg = [{"name": "Q", "typ": "O", "bits": 1, "default": "-"}, {"name": "R", "typ": "O", "bits": 1, "default": "-"}, {"name": "D", "typ": "B", "bits": 1, "default": "Z"},
+          {"name": "A", "typ": "I", "bits": 1, "default": "0"}]
+    for k, (hdr, rows, decl) in enumerate([("Q R", ["C 1"], []), ("Q", ["C"], []), ("D_out Q", ["C X"], []), ("V Q", ["C X"], ["declare V = Q;"]), ("Q R", ["1 1", "X C"], []),
+                                           ("Q A", ["C 1"], []), ("A Q", ["1 C"], []), ("D_out", ["C"], []), ("Q R", ["loop(i,1)", "C 0", "end loop"], []), ("D Q", ["C X"], []), ("A", ["C"], [])]):
+        cases.append({"id": "c11-cnoinput-%d" % k, "kind": "run", "src": "\n".join([hdr] + decl + rows) + "\n", "sigs": [dict(s_) for s_ in sg], "layout": [0, 1], "table": [["1", "0"]],
+                      "echo": 0, "wdefault": 0, "faults": [], "max": 8, "seed": 1 + k, "c11": "C where no input column / not an input column"})
+    return cases
+
+
+for _p in ("C11", "C10", "C05"):
+    _extend(_p, c11_clock_without_inputs_cases, "plus C entries in headers without any input column (refused at binding)")
+
+
+def c07_bits_overflow_cases(seed, tier):
+    """bits(n, v) with a v that does not fit in n bits (too large, negative), its columns bound to signals WIDER than one bit"""
+    cases = []
+    sg = [{"name": "A", "typ": "I", "bits": 4, "default": "0"}, {"name": "B", "typ": "I", "bits": 3, "default": "0"}, {"name": "Q", "typ": "O", "bits": 5, "default": "-"},
+          {"name": "R", "typ": "O", "bits": 2, "default": "-"}]
+    for k, rows in enumerate([["bits(2,12) bits(2,12)"], ["bits(2,0-1) bits(2,0-3)"], ["bits(4,0x1F5)"], ["bits(3,100) 7"], ["let v = 0-7;", "bits(2,v) bits(2,v*v)"], ["bits(1,6) bits(1,0-1) bits(2,255)"],
+                              ["bits(4,(1<<63)+5)"], ["loop(i,3)", "bits(2,i*5) bits(2,i-2)", "end loop"]]):
+        for kind in ("run", "static"):
+            cases.append({"id": "c07-bitsover-%d-%s" % (k, kind), "kind": kind, "src": "A B Q R\n" + "\n".join(rows) + "\n", "sigs": [dict(s_) for s_ in sg], "layout": [2, 3] if kind == "run" else [],
+                          "table": [["1", "1"]] if kind == "run" else [], "echo": 0, "wdefault": k % 2, "faults": [], "max": 12, "seed": 1 + k})
+    return cases
+
+
+for _p in ("C07", "C01", "C06"):
+    _extend(_p, c07_bits_overflow_cases, "plus bits(n, v) with values that do not fit in n bits on columns of signals wider than one bit")
